@@ -902,7 +902,9 @@ func renderJS(ctx *reporter, work string, reg *template.Registry, cats []*catalo
 				refs[cat.name] = append(refs[cat.name], ref{o, ex.N})
 			}
 		}
-		jobs = append(jobs, job)
+		if len(job.Renders) > 0 {
+			jobs = append(jobs, job)
+		}
 	}
 	// one node process per catalogue, a few at a time
 	type res struct {
